@@ -52,6 +52,7 @@ class MemTransport(asyncio.Transport):
         self.inflight = collections.deque()
         self.written = 0
         self.dead_writes = 0
+        self.stop_written = False
 
     # -- Transport API
     def set_protocol(self, protocol):
@@ -96,6 +97,12 @@ class MemTransport(asyncio.Transport):
                 self._loop.call_soon(self._lost, BrokenPipeError(32, 'Broken pipe'))
             return
         self.written += 1
+        try:
+            msg = CTX['msg_table'][int(bytes(data)[5:])]
+            if isinstance(msg, list) and len(msg) == 3 and isinstance(msg[2], list) and msg[2][:1] == ['stop']:
+                self.stop_written = True
+        except Exception:
+            pass
         self.inflight.append(('data', bytes(data)))
         self._loop.wire_changed(self)
 
@@ -320,6 +327,10 @@ class Endpoint:
         for name in ('setup_done', 'step', 'get_data'):
             setattr(sim, name, wrap(name, getattr(sim, name)))
 
+    def stop_sent(self):
+        """mosaik has written a stop request to this connection"""
+        return self.t_mosaik.stop_written
+
     def die(self):
         """the process exits: the operating system closes the socket"""
         self.t_sim.close()
@@ -466,7 +477,55 @@ class _Subprocess:
         r1, w1 = _new_connection(loop, cmd[1], proc=(dict(env) if env is not None else dict(os.environ), cwd))
         t = loop.create_task(srv.cb(r1, w1))
         CTX.setdefault('popen_calls', []).append({'cmd': list(cmd), 'cwd': cwd})
-        return object()
+        return MemProcess(loop.endpoints[-1])
+
+
+class MemProcess:
+    """the Popen handle of an in-memory simulator process.  A process listed in CTX['linger'] (by simulator id) outlives its
+    connection (a non-daemon thread, a long finalize(), a wrapper command): it does not exit by itself within the horizon.  Every other
+    process exits as soon as it has been told to stop or has lost its connection."""
+
+    def __init__(self, ep):
+        self.ep = ep
+        self.pid = 4000 + len(ep.loop.endpoints)
+        self.returncode = None
+        self.killed = False
+
+    def _lingers(self):
+        return not self.killed and getattr(self.ep.sim, 'sid', None) in CTX.get('linger', ())
+
+    def _gone(self):
+        # exits by itself once its connection is closed in either direction or it was told to stop (the stop request is delivered
+        # at once; the simulator side may just not have been scheduled yet because the caller blocks the loop)
+        return self.killed or self.ep.task.done() or self.ep.t_mosaik.closing or self.ep.t_sim.closing or self.ep.stop_sent()
+
+    def poll(self):
+        if self._lingers() or not self._gone():
+            return None
+        self.returncode = 0
+        return 0
+
+    def wait(self, timeout=None):
+        if self.poll() is not None:
+            return self.returncode
+        if timeout is None:
+            # a blocking wait on the event loop for a process that does not exit: nothing can make progress any more
+            self.ep.loop.active = False
+            self.ep.loop.verdict = 'deadlock'
+            raise Deadlock(f'blocking wait() for process {self.pid} which does not exit')
+        import subprocess
+        raise subprocess.TimeoutExpired('mem-sim', timeout)
+
+    def terminate(self):
+        self.killed = True
+        self.returncode = -15
+        self.ep.die_now()
+
+    kill = terminate
+
+    def communicate(self, *a, **k):
+        self.wait(k.get('timeout'))
+        return (None, None)
 
 
 @contextlib.contextmanager
